@@ -292,6 +292,36 @@ pub fn large() -> Vec<(String, Tree)> {
     vec![("chain130".to_string(), chain(130)), ("cards67".to_string(), cards(67)), ("cards1025".to_string(), cards(1025)), ("wide300".to_string(), wide()), ("wide40two".to_string(), wide_two())]
 }
 
+/// a labelled chance infoset with three unequal outcomes met at two different nodes (the probabilities of one chance
+/// infoset are matched position by position)
+pub fn two_dice() -> Tree {
+    let die = |x: i64| chance("die", vec![(1, term(x)), (2, term(-x)), (3, term(x - 2))]);
+    player(1, "x", vec![("a", die(3)), ("b", player(2, "y", vec![("l", die(1)), ("r", term(0))]))])
+}
+
+/// trees that break perfect recall (and nothing else) in every way the rule can be broken: the two nodes of the infoset
+/// "x" of player `pl` follow (a) an own decision and no own decision, in both visiting orders, (b) two different own
+/// infosets, (c) two different actions of one own infoset; each also with a move of the other player in between
+pub fn recall_breakers() -> Vec<(String, Tree)> {
+    let mut v = Vec::new();
+    for pl in [1u8, 2] {
+        let x = |p: i64| player(pl, "x", vec![("c", term(p)), ("d", term(-p))]);
+        let via_other = |t: Tree| player(3 - pl, "o", vec![("l", t), ("r", term(0))]);
+        let wrap = |deep: bool, t: Tree| if deep { via_other(t) } else { t };
+        for deep in [false, true] {
+            // (a) below an own decision first, then without one - and the other way round
+            let below = player(pl, "y", vec![("a", wrap(deep, x(1))), ("b", term(2))]);
+            v.push((format!("recall-some-none-p{pl}-{deep}"), chance("c", vec![(1, below.clone()), (1, x(3))])));
+            v.push((format!("recall-none-some-p{pl}-{deep}"), chance("c", vec![(1, x(3)), (1, below)])));
+            // (b) two different own infosets above
+            let y1 = player(pl, "y1", vec![("a", wrap(deep, x(1))), ("b", term(2))]);
+            let y2 = player(pl, "y2", vec![("a", wrap(deep, x(2))), ("b", term(1))]);
+            v.push((format!("recall-two-infosets-p{pl}-{deep}"), chance("c", vec![(1, y1), (2, y2)])));
+        }
+    }
+    v
+}
+
 pub fn all() -> Vec<(String, Tree)> {
     let mut v = vec![
         ("pennies".to_string(), pennies()),
@@ -303,6 +333,7 @@ pub fn all() -> Vec<(String, Tree)> {
     ];
     v.push(("coins".to_string(), coins()));
     v.push(("liars".to_string(), liars()));
+    v.push(("twodice".to_string(), two_dice()));
     v.push(("rps".to_string(), rps([1, 1, 1])));
     v.push(("rps-weighted".to_string(), rps([1, 2, 3])));
     for d in [2, 4, 6, 8] {
